@@ -7,7 +7,8 @@ from sa.astx import NotConst, call_attr, call_name, const_eval, src, walk_local
 from sa.domains import replace_chain
 from sa.selftest import Mutant, Silent
 from sa.source import methods
-from sa.props._lib_j import catching_handler, edge_asserts, local_defs, no_exc, node_calls, params, resolve, rsrc
+from sa.props._lib_j import (body_always_entered, catching_handler, edge_asserts, local_defs, no_exc, node_calls, params, rsrc,
+                             run_sections)
 
 PROPERTY = "C51"
 DB = "persisted/dirdbm.py"
@@ -23,6 +24,7 @@ EXPLANATION = (
     "_encode's replace chain over the base64 alphabet: no '.', '/' or newline can occur in an encoded name (so no entry can "
     "look like a temporary or leave the directory) and _decode inverts it. Who-may-mutate: only __setitem__, __delitem__, "
     "recovery and _writeFile touch the directory. Not decided: durability across power loss (no fsync), concurrent writers."
+    "Every anchor function is also checked to be entered on every call (no memoising/wrapping decorator, duplicate definition or rebinding). "
 )
 ASSUMPTIONS = [
     "os.rename / os.remove are atomic with respect to a process crash",
@@ -42,8 +44,17 @@ def _sibling(e):
     return None
 
 
-def check(ctx):
-    cls = ctx.cls(DB, "DirDBM")
+def _writer_exts(ctx):
+    """Constant suffixes of the temporaries __setitem__ creates (siblingExtension(<const>))."""
+    out = set()
+    for c in ast.walk(ctx.func(DB, "DirDBM.__setitem__")):
+        s_ = _sibling(c)
+        if s_ is not None:
+            out.add(s_[1])
+    return out
+
+
+def _s_setitem(ctx, S):
     f = ctx.func(DB, "DirDBM.__setitem__")
     g = ctx.cfg(f, exception_is_all=False)
     q = Q + ".__setitem__"
@@ -51,7 +62,8 @@ def check(ctx):
 
     writes = node_calls(g, lambda c: call_name(c) == "self._writeFile")
     ctx.check(len(writes) == 1, "setitem/single-write", q, f"__setitem__ writes at {len(writes)} sites (one expected)")
-    ctx.need(writes, "self._writeFile(...) in DirDBM.__setitem__")
+    if not writes:
+        return      # the violation above is the verdict
     wn, wc = writes[0]
     tmp = wc.args[0]
     ctx.need(isinstance(tmp, ast.Name), "temporary path variable passed to _writeFile")
@@ -128,6 +140,9 @@ def check(ctx):
         ctx.check(not touches_old, "setitem/failed-write-keeps-old", ctx.construct(q, "handler leaves the old entry"), "the failure handler modifies the old entry")
         ctx.check(w is None, "setitem/failed-write-propagates", ctx.construct(q, "handler re-raises"), "a failed write is reported as success", witness=g.describe(w))
 
+
+
+def _s_writefile(ctx, S):
     # _writeFile writes the path it is given, flushes, closes
     fw = ctx.func(DB, "DirDBM._writeFile")
     pw = params(fw)
@@ -138,19 +153,45 @@ def check(ctx):
     ctx.check(ok and len(wr) == 1, "writefile/writes-given-path-and-closes", Q + "._writeFile",
               "_writeFile does not open exactly the given path for binary writing inside a with block and write the data once")
 
+
+
+def _s_recovery(ctx, S):
+    writer_exts = _writer_exts(ctx)
     # ---- recovery ---------------------------------------------------------------------------------------
     fi = ctx.func(DB, "DirDBM.__init__")
     gi = ctx.cfg(fi)
     qi = Q + ".__init__"
     loops = [n for n in gi.nodes if n.kind == "for" and gi.reachable(n.id)]
     handled = {}
+    def globs_of(e):
+        """glob.glob(<dir>.child("*<ext>").path) calls that make up a list expression (a + b, list variables built by = / +=)."""
+        if isinstance(e, ast.Call) and call_name(e) == "glob.glob":
+            return [e]
+        if isinstance(e, ast.BinOp) and isinstance(e.op, ast.Add):
+            l, r = globs_of(e.left), globs_of(e.right)
+            return None if l is None or r is None else l + r
+        if isinstance(e, ast.Name):
+            vals = [n.value for n in walk_local(fi) if isinstance(n, (ast.Assign, ast.AugAssign))
+                    and any(isinstance(t, ast.Name) and t.id == e.id for t in (n.targets if isinstance(n, ast.Assign) else [n.target]))]
+            out = []
+            for v in vals:
+                g_ = globs_of(v) if not (isinstance(v, ast.Name) and v.id == e.id) else []
+                if g_ is None:
+                    return None
+                out += g_
+            return out or None
+        return None
+
     for ln in loops:
-        it = resolve(ln.ast.iter, fi)
-        pats = [const_eval(c.args[0]) for c in ast.walk(it) if isinstance(c, ast.Call) and call_attr(c) == "child" and c.args and isinstance(c.args[0], ast.Constant)]
-        if not (isinstance(it, ast.Call) and call_name(it) == "glob.glob" and len(pats) == 1 and pats[0].startswith("*")):
+        gl = globs_of(ln.ast.iter)
+        if not gl:
             continue
-        ok_dir = "self._dnamePath.child(" in src(it)
-        handled[pats[0][1:]] = (ln, ok_dir)
+        for it in gl:
+            pats = [const_eval(c.args[0]) for c in ast.walk(it) if isinstance(c, ast.Call) and call_attr(c) == "child" and c.args and isinstance(c.args[0], ast.Constant)]
+            if len(pats) != 1 or not (isinstance(pats[0], str) and pats[0].startswith("*")):
+                continue
+            ok_dir = "self._dnamePath.child(" in src(it)
+            handled[pats[0][1:]] = (ln, ok_dir)
     ctx.check(set(handled) == writer_exts and writer_exts == {".rpl", ".new"}, "recovery/suffixes-agree-with-writer", qi,
               f"__setitem__ uses temporaries {sorted(writer_exts)} but recovery handles {sorted(handled)}: a crash leaves a stray file that is "
               f"later listed as a key (or an interrupted replacement is never completed)")
@@ -192,12 +233,16 @@ def check(ctx):
                       "a replacement whose old entry was already removed is not renamed (file, target) into place")
     ctx.floor("recovery", len(handled), 1, "recovery loops")
 
+
+
+def _s_encoding(ctx, S):
+    writer_exts = _writer_exts(ctx)
     # ---- key encoding ---------------------------------------------------------------------------------------
     fe = ctx.func(DB, "DirDBM._encode")
     fd = ctx.func(DB, "DirDBM._decode")
     ce = replace_chain(fe)
     cd = replace_chain(fd)
-    ctx.need(ce, "replace chain in _encode")
+    # an _encode without any replace() is judged like any other: its alphabet then still contains "/" and newline
     ctx.check("encodebytes" in src(fe) or "b64encode" in src(fe), "encoding/base64", Q + "._encode", "keys are not base64-encoded")
     out = set()
     img = {}
@@ -215,6 +260,10 @@ def check(ctx):
     ctx.check(bytes([10]) in [o for o, n in ce] and all(e.encode()[-1] not in set(img[10]) for e in writer_exts if isinstance(e, str)), "encoding/temporaries-distinguishable",
               Q + "._encode", "an encoded name (always ending in the image of the final newline) can end like a temporary suffix")
 
+
+
+def _s_who(ctx, S):
+    cls = ctx.cls(DB, "DirDBM")
     # ---- who may mutate the directory ---------------------------------------------------------------------------
     nsites = 0
     for name, m in methods(cls).items():
@@ -237,6 +286,17 @@ def check(ctx):
     ctx.check(any(isinstance(c, ast.Call) and call_name(c) == "DirDBM.__setitem__" for c in ast.walk(sh)) and
               not any(isinstance(c, ast.Call) and call_attr(c) in MUTATORS for c in ast.walk(sh)), "who-may-mutate/directory", "twisted.persisted.dirdbm.Shelf.__setitem__",
               "Shelf.__setitem__ does not go through DirDBM.__setitem__")
+
+
+def _s_body(ctx, S):
+    body_always_entered(ctx, DB, ["DirDBM.__init__", "DirDBM.__setitem__", "DirDBM.__delitem__", "DirDBM._writeFile", "DirDBM._encode", "Shelf.__setitem__"],
+                        "anchor/body-entered-on-every-call", "twisted.persisted.dirdbm",
+                        "the write-temporary-then-rename protocol and the recovery live in this body; a wrapper that answers without running it skips them")
+
+
+def check(ctx):
+    run_sections(ctx, [("setitem", _s_setitem), ("writeFile", _s_writefile), ("recovery", _s_recovery), ("encoding", _s_encoding), ("who-may-mutate", _s_who),
+                       ("body-entered", _s_body)])
 
 
 MUTANTS = [
